@@ -755,4 +755,386 @@ theorem icmpv6_table (pre b : Bytes) :
 
 end Transport
 
+/-! ## network layer -/
+
+section Net
+open EpModel.CodecNet
+
+theorem take_take_self (b : Bytes) (n : Nat) : (b.take n).take n = b.take n := by
+  rw [List.take_take, Nat.min_self]
+
+theorem length_take_of_le (b : Bytes) (n : Nat) (h : n ≤ b.length) : (b.take n).length = n := by
+  simp [List.length_take]; omega
+
+/-! ### IPv4 header -/
+
+/-- canonical text of the content errors of `Ipv4Header::from_slice` (as Driver/EncNet.lean prints
+    them); `none`: a length error -/
+def ipv4ErrText : Ipv4Err → Option String
+  | .unexpectedVersion v => some s!"err(version({v}))"
+  | .headerLengthSmallerThanHeader i => some s!"err(ihl({i}))"
+  | .len _ => none
+
+/-- the header length the IHL nibble announces -/
+def ipv4Len (b : Bytes) : Nat := (bAt b 0 &&& 0xf) * 4
+
+theorem ipv4_dec (b : Bytes) :
+    Ipv4Header.fromSlice b =
+      if b.length < 20 then .error (.len (sliceLenErr 20 b.length .ipv4Header))
+      else if bAt b 0 >>> 4 ≠ 4 then .error (.unexpectedVersion (bAt b 0 >>> 4))
+      else if bAt b 0 &&& 0xf < 5 then .error (.headerLengthSmallerThanHeader (bAt b 0 &&& 0xf))
+      else if b.length < ipv4Len b then .error (.len (sliceLenErr (ipv4Len b) b.length .ipv4Header))
+      else .ok (Ipv4HeaderSlice.toHeader { slice := b.take (ipv4Len b) }, b.drop (ipv4Len b)) := by
+  unfold Ipv4Header.fromSlice Ipv4HeaderSlice.fromSlice ipv4Len
+  by_cases hl : b.length < 20
+  · simp only [if_pos hl]
+  · simp only [if_neg hl]
+    by_cases hv : bAt b 0 >>> 4 ≠ 4
+    · rw [if_pos hv, if_pos (fun h => hv h.symm)]
+    · rw [if_neg hv, if_neg (fun h => hv (fun h' => h h'.symm))]
+      by_cases hi : bAt b 0 &&& 0xf < 5
+      · simp only [if_pos hi]
+      · simp only [if_neg hi]
+        by_cases hr : b.length < (bAt b 0 &&& 0xf) * 4
+        · simp only [if_pos hr]
+        · simp only [if_neg hr]
+          have : Ipv4Header.headerLen (Ipv4HeaderSlice.toHeader { slice := b.take ((bAt b 0 &&& 0xf) * 4) })
+              = (bAt b 0 &&& 0xf) * 4 := by
+            show 20 + (sub (b.take ((bAt b 0 &&& 0xf) * 4)) 20
+              ((b.take ((bAt b 0 &&& 0xf) * 4)).length - 20)).length = _
+            rw [length_take_of_le b _ (by omega), sub_length _ _ _ (by rw [length_take_of_le b _ (by omega)]; omega)]
+            omega
+          rw [this]
+
+theorem ipv4_eval (b : Bytes) :
+    evalOn Reads.ipv4 b =
+      if b.length < 1 then (.error (.io .unexpectedEof), b.length)
+      else if bAt b 0 >>> 4 ≠ 4 then (.error (.other s!"err(version({bAt b 0 >>> 4}))"), 1)
+      else if b.length < 20 then (.error (.io .unexpectedEof), b.length)
+      else if bAt b 0 &&& 0xf < 5 then (.error (.other s!"err(ihl({bAt b 0 &&& 0xf}))"), 20)
+      else if b.length < ipv4Len b then (.error (.io .unexpectedEof), b.length)
+      else (.ok (b.take (ipv4Len b)), ipv4Len b) := by
+  unfold ipv4Len
+  by_cases h1 : b.length < 1
+  · rw [if_pos h1]; simp only [Reads.ipv4, evalOn]; rw [if_neg (by omega)]
+  · rw [if_neg h1]
+    simp only [Reads.ipv4, evalOn]; rw [if_pos (by omega)]
+    simp (disch := omega) only [bAt_take]
+    by_cases hv : bAt b 0 >>> 4 ≠ 4
+    · simp only [if_pos hv, evalOn]
+    · simp only [if_neg hv, evalOn, List.length_drop]
+      by_cases hl : b.length < 20
+      · rw [if_pos hl, if_neg (by omega)]; simp only [Prod.mk.injEq, true_and]; omega
+      · rw [if_neg hl, if_pos (by omega)]
+        by_cases hi : bAt b 0 &&& 0xf < 5
+        · simp only [if_pos hi, evalOn]
+        · simp only [if_neg hi]
+          generalize bAt b 0 &&& 0xf = ihl at hi ⊢
+          by_cases ho : (ihl - 5) * 4 ≠ 0
+          · simp only [if_pos ho, evalOn, List.length_drop, List.drop_drop]
+            by_cases hr : b.length < ihl * 4
+            · rw [if_pos hr, if_neg (by omega)]; simp only [Prod.mk.injEq, true_and]; omega
+            · rw [if_neg hr, if_pos (by omega)]
+              simp only [← List.take_add, Prod.mk.injEq]
+              exact ⟨by congr 2; omega, by omega⟩
+          · simp only [if_neg ho, evalOn]
+            have : ihl * 4 = 20 := by omega
+            rw [this, if_neg (by omega), ← List.take_add]
+
+theorem ipv4Len_take (b : Bytes) (n : Nat) (hn : 1 ≤ n) : ipv4Len (b.take n) = ipv4Len b := by
+  unfold ipv4Len; rw [bAt_take b n 0 (by omega)]
+
+theorem ipv4_table (pre b : Bytes) :
+    match Ipv4Header.fromSlice b with
+    | .ok (h, rest) => OkRow Reads.ipv4 Ipv4Header.fromSlice pre b h rest
+    | .error (.unexpectedVersion v) =>
+      20 ≤ b.length ∧ v = bAt b 0 >>> 4 ∧ v ≠ 4 ∧ ReadsContent Reads.ipv4 pre b 1 s!"err(version({v}))"
+    | .error (.headerLengthSmallerThanHeader i) =>
+      20 ≤ b.length ∧ i = bAt b 0 &&& 0xf ∧ i < 5 ∧ ReadsContent Reads.ipv4 pre b 20 s!"err(ihl({i}))"
+    | .error (.len le) =>
+      ((b.length < 20 ∧ le = sliceLenErr 20 b.length .ipv4Header) ∨
+       (20 ≤ b.length ∧ b.length < ipv4Len b ∧ le = sliceLenErr (ipv4Len b) b.length .ipv4Header)) ∧
+      (((b = [] ∨ bAt b 0 >>> 4 = 4) ∧ ReadsEof Reads.ipv4 pre b) ∨
+       (b ≠ [] ∧ b.length < 20 ∧ bAt b 0 >>> 4 ≠ 4 ∧
+         ReadsContent Reads.ipv4 pre b 1 s!"err(version({bAt b 0 >>> 4}))")) := by
+  have he := ipv4_eval b
+  rw [ipv4_dec b]
+  by_cases hl : b.length < 20
+  · rw [if_pos hl]
+    refine ⟨.inl ⟨hl, rfl⟩, ?_⟩
+    by_cases h1 : b.length < 1
+    · rw [if_pos h1] at he
+      have : b = [] := List.eq_nil_of_length_eq_zero (by omega)
+      exact .inl ⟨.inl this, readsEof_of_eval he⟩
+    · rw [if_neg h1] at he
+      have hne : b ≠ [] := by intro h; subst h; simp at h1
+      by_cases hv : bAt b 0 >>> 4 ≠ 4
+      · rw [if_pos hv] at he; exact .inr ⟨hne, hl, hv, readsContent_of_eval he⟩
+      · rw [if_neg hv, if_pos hl] at he
+        exact .inl ⟨.inr (by omega), readsEof_of_eval he⟩
+  · rw [if_neg hl]
+    rw [if_neg (by omega)] at he
+    by_cases hv : bAt b 0 >>> 4 ≠ 4
+    · rw [if_pos hv] at he ⊢; exact ⟨by omega, rfl, hv, readsContent_of_eval he⟩
+    · rw [if_neg hv] at he ⊢; rw [if_neg hl] at he
+      by_cases hi : bAt b 0 &&& 0xf < 5
+      · rw [if_pos hi] at he ⊢; exact ⟨by omega, rfl, hi, readsContent_of_eval he⟩
+      · rw [if_neg hi] at he ⊢
+        by_cases hr : b.length < ipv4Len b
+        · rw [if_pos hr] at he ⊢
+          exact ⟨.inr ⟨by omega, hr, rfl⟩, .inl ⟨.inr (by omega), readsEof_of_eval he⟩⟩
+        · rw [if_neg hr] at he ⊢
+          have h20 : 20 ≤ ipv4Len b := by unfold ipv4Len; omega
+          refine okRow_of (ipv4Len b) (by omega) he ?_
+          rw [ipv4_dec, length_take_of_le b _ (by omega), ipv4Len_take b _ (by omega),
+            bAt_take b _ 0 (by omega), if_neg (by omega), if_neg hv, if_neg hi, if_neg (by omega),
+            take_take_self, drop_take_self]
+
+/-! ### IPv6 header -/
+
+/-- canonical text of the content errors of `Ipv6Header::from_slice` (as Driver/EncNet.lean prints
+    them); `none`: a length error -/
+def ipv6ErrText : Ipv6Err → Option String
+  | .unexpectedVersion v => some s!"err(version({v}))"
+  | .len _ => none
+
+theorem ipv6_dec (b : Bytes) :
+    Ipv6Header.fromSlice b =
+      if b.length < 40 then .error (.len (sliceLenErr 40 b.length .ipv6Header))
+      else if bAt b 0 >>> 4 ≠ 6 then .error (.unexpectedVersion (bAt b 0 >>> 4))
+      else .ok (Ipv6HeaderSlice.toHeader { slice := b.take 40 }, b.drop 40) := by
+  unfold Ipv6Header.fromSlice Ipv6HeaderSlice.fromSlice
+  by_cases hl : b.length < 40
+  · simp only [if_pos hl]
+  · simp only [if_neg hl]
+    by_cases hv : bAt b 0 >>> 4 ≠ 6
+    · rw [if_pos hv, if_pos (fun h => hv h.symm)]
+    · rw [if_neg hv, if_neg (fun h => hv (fun h' => h h'.symm))]
+
+theorem ipv6_eval (b : Bytes) :
+    evalOn Reads.ipv6 b =
+      if b.length < 1 then (.error (.io .unexpectedEof), b.length)
+      else if bAt b 0 >>> 4 ≠ 6 then (.error (.other s!"err(version({bAt b 0 >>> 4}))"), 1)
+      else if b.length < 40 then (.error (.io .unexpectedEof), b.length)
+      else (.ok (b.take 40), 40) := by
+  by_cases h1 : b.length < 1
+  · rw [if_pos h1]; simp only [Reads.ipv6, evalOn]; rw [if_neg (by omega)]
+  · rw [if_neg h1]
+    simp only [Reads.ipv6, evalOn]; rw [if_pos (by omega)]
+    simp (disch := omega) only [bAt_take]
+    by_cases hv : bAt b 0 >>> 4 ≠ 6
+    · simp only [if_pos hv, evalOn]
+    · simp only [if_neg hv, evalOn, List.length_drop]
+      by_cases hl : b.length < 40
+      · rw [if_pos hl, if_neg (by omega)]; simp only [Prod.mk.injEq, true_and]; omega
+      · rw [if_neg hl, if_pos (by omega), ← List.take_add]; rfl
+
+theorem ipv6_table (pre b : Bytes) :
+    match Ipv6Header.fromSlice b with
+    | .ok (h, rest) => OkRow Reads.ipv6 Ipv6Header.fromSlice pre b h rest
+    | .error (.unexpectedVersion v) =>
+      40 ≤ b.length ∧ v = bAt b 0 >>> 4 ∧ v ≠ 6 ∧ ReadsContent Reads.ipv6 pre b 1 s!"err(version({v}))"
+    | .error (.len le) =>
+      b.length < 40 ∧ le = sliceLenErr 40 b.length .ipv6Header ∧
+      (((b = [] ∨ bAt b 0 >>> 4 = 6) ∧ ReadsEof Reads.ipv6 pre b) ∨
+       (b ≠ [] ∧ bAt b 0 >>> 4 ≠ 6 ∧
+         ReadsContent Reads.ipv6 pre b 1 s!"err(version({bAt b 0 >>> 4}))")) := by
+  have he := ipv6_eval b
+  rw [ipv6_dec b]
+  by_cases hl : b.length < 40
+  · rw [if_pos hl]
+    refine ⟨hl, rfl, ?_⟩
+    by_cases h1 : b.length < 1
+    · rw [if_pos h1] at he
+      have : b = [] := List.eq_nil_of_length_eq_zero (by omega)
+      exact .inl ⟨.inl this, readsEof_of_eval he⟩
+    · rw [if_neg h1] at he
+      have hne : b ≠ [] := by intro h; subst h; simp at h1
+      by_cases hv : bAt b 0 >>> 4 ≠ 6
+      · rw [if_pos hv] at he; exact .inr ⟨hne, hv, readsContent_of_eval he⟩
+      · rw [if_neg hv, if_pos hl] at he
+        exact .inl ⟨.inr (by omega), readsEof_of_eval he⟩
+  · rw [if_neg hl]
+    rw [if_neg (by omega)] at he
+    by_cases hv : bAt b 0 >>> 4 ≠ 6
+    · rw [if_pos hv] at he ⊢; exact ⟨by omega, rfl, hv, readsContent_of_eval he⟩
+    · rw [if_neg hv] at he ⊢; rw [if_neg hl] at he
+      refine okRow_of 40 (by omega) he ?_
+      rw [ipv6_dec, length_take_of_le b 40 (by omega), bAt_take b 40 0 (by omega), if_neg (by omega),
+        if_neg hv, take_take_self, drop_take_self]
+
+/-! ### IPv6 fragment header -/
+
+theorem frag_dec (b : Bytes) :
+    Ipv6FragmentHeader.fromSlice b =
+      if b.length < 8 then .error (sliceLenErr 8 b.length .ipv6FragHeader)
+      else .ok (Ipv6FragmentHeaderSlice.toHeader { slice := b.take 8 }, b.drop 8) := by
+  unfold Ipv6FragmentHeader.fromSlice Ipv6FragmentHeaderSlice.fromSlice
+  by_cases hl : b.length < 8
+  · simp only [if_pos hl]
+  · simp only [if_neg hl]
+
+theorem ipv6frag_table (pre b : Bytes) :
+    match Ipv6FragmentHeader.fromSlice b with
+    | .ok (h, rest) => OkRow Reads.ipv6frag Ipv6FragmentHeader.fromSlice pre b h rest
+    | .error e => e = sliceLenErr 8 b.length .ipv6FragHeader ∧ b.length < 8 ∧ ReadsEof Reads.ipv6frag pre b := by
+  have he : evalOn Reads.ipv6frag b = _ := evalOn_readN 8 b
+  rw [frag_dec]
+  by_cases hl : b.length < 8
+  · rw [if_neg (by omega)] at he; rw [if_pos hl]
+    exact ⟨rfl, hl, readsEof_of_eval he⟩
+  · rw [if_pos (by omega)] at he; rw [if_neg hl]
+    refine okRow_of 8 (by omega) he ?_
+    rw [frag_dec, length_take_of_le b 8 (by omega), if_neg (by omega), take_take_self, drop_take_self]
+
+/-! ### IPv6 raw extension header -/
+
+/-- the header length the `hdr ext len` byte announces -/
+def rawextLen (b : Bytes) : Nat := (bAt b 1 + 1) * 8
+
+theorem rawext_dec (b : Bytes) :
+    Ipv6RawExtHeader.fromSlice b =
+      if b.length < 8 then .error (.len (sliceLenErr 8 b.length .ipv6ExtHeader))
+      else if b.length < rawextLen b then .error (.len (sliceLenErr (rawextLen b) b.length .ipv6ExtHeader))
+      else .ok ({ nextHeader := bAt b 0, payload := (b.take (rawextLen b)).drop 2 }, b.drop (rawextLen b)) := by
+  have hlt := bAt_lt b 1
+  unfold Ipv6RawExtHeader.fromSlice Ipv6RawExtHeaderSlice.fromSlice rawextLen
+  by_cases hl : b.length < 8
+  · simp only [if_pos hl]
+  · simp only [if_neg hl]
+    by_cases hr : b.length < (bAt b 1 + 1) * 8
+    · simp only [if_pos hr]
+    · simp only [if_neg hr]
+      have hlen := length_take_of_le b ((bAt b 1 + 1) * 8) (by omega)
+      rw [EpModel.Lemmas.CodecNet.RawExt.toHeader_eq _ (by simp only [hlen]; omega) (by simp only [hlen]; omega)
+        (by simp only [hlen]; omega)]
+      simp only [hlen, bAt_take b _ 0 (show 0 < (bAt b 1 + 1) * 8 by omega)]
+
+theorem rawext_eval (b : Bytes) :
+    evalOn Reads.rawext b =
+      if b.length < 8 ∨ b.length < rawextLen b then (.error (.io .unexpectedEof), b.length)
+      else (.ok (b.take (rawextLen b)), rawextLen b) := by
+  unfold rawextLen
+  by_cases h2 : b.length < 2
+  · rw [if_pos (.inl (by omega))]; simp only [Reads.rawext, evalOn]; rw [if_neg (by omega)]
+  · simp only [Reads.rawext, evalOn]; rw [if_pos (by omega)]
+    simp (disch := omega) only [bAt_take, List.length_drop]
+    by_cases hr : b.length < 8 ∨ b.length < (bAt b 1 + 1) * 8
+    · rw [if_pos hr, if_neg (by omega)]; simp only [Prod.mk.injEq, true_and]; omega
+    · rw [if_neg hr, if_pos (by omega)]
+      simp only [← List.take_add, Prod.mk.injEq]
+      exact ⟨by congr 2; omega, by omega⟩
+
+theorem rawextLen_take (b : Bytes) (n : Nat) (hn : 2 ≤ n) : rawextLen (b.take n) = rawextLen b := by
+  unfold rawextLen; rw [bAt_take b n 1 (by omega)]
+
+theorem rawext_table (pre b : Bytes) :
+    match Ipv6RawExtHeader.fromSlice b with
+    | .ok (h, rest) => OkRow Reads.rawext Ipv6RawExtHeader.fromSlice pre b h rest
+    | .error e =>
+      (∃ le, e = .len le) ∧ (b.length < 8 ∨ b.length < rawextLen b) ∧ ReadsEof Reads.rawext pre b := by
+  have he := rawext_eval b
+  rw [rawext_dec b]
+  by_cases hl : b.length < 8
+  · rw [if_pos (.inl hl)] at he; rw [if_pos hl]
+    exact ⟨⟨_, rfl⟩, .inl hl, readsEof_of_eval he⟩
+  · rw [if_neg hl]
+    by_cases hr : b.length < rawextLen b
+    · rw [if_pos (.inr hr)] at he; rw [if_pos hr]
+      exact ⟨⟨_, rfl⟩, .inr hr, readsEof_of_eval he⟩
+    · rw [if_neg (by omega)] at he; rw [if_neg hr]
+      have h8 : 8 ≤ rawextLen b := by unfold rawextLen; omega
+      refine okRow_of (rawextLen b) (by omega) he ?_
+      rw [rawext_dec, length_take_of_le b _ (by omega), rawextLen_take b _ (by omega),
+        bAt_take b _ 0 (by omega), if_neg (by omega), if_neg (by omega), take_take_self, drop_take_self]
+
+/-! ### IP authentication header -/
+
+/-- canonical text of the content error of `IpAuthHeader::from_slice` (as Driver/EncNet.lean prints
+    it); `none`: a length error (`panicUnwrap` is unreachable: `Auth.fromSlice_no_panic`) -/
+def authErrText : IpAuthErr → Option String
+  | .zeroPayloadLen => some "err(zeropayloadlen)"
+  | _ => none
+
+/-- the header length the `payload len` byte announces -/
+def authLen (b : Bytes) : Nat := (bAt b 1 + 2) * 4
+
+theorem auth_dec (b : Bytes) :
+    IpAuthHeader.fromSlice b =
+      if b.length < 12 then .error (.len (sliceLenErr 12 b.length .ipAuthHeader))
+      else if bAt b 1 < 1 then .error .zeroPayloadLen
+      else if b.length < authLen b then .error (.len (sliceLenErr (authLen b) b.length .ipAuthHeader))
+      else .ok ({ nextHeader := bAt b 0, spi := be32 b 4, sequenceNumber := be32 b 8,
+                  rawIcv := (b.take (authLen b)).drop 12 }, b.drop (authLen b)) := by
+  have hlt := bAt_lt b 1
+  unfold IpAuthHeader.fromSlice IpAuthHeaderSlice.fromSlice authLen
+  by_cases hl : b.length < 12
+  · simp only [if_pos hl]
+  · simp only [if_neg hl]
+    by_cases hz : bAt b 1 < 1
+    · simp only [if_pos hz]
+    · simp only [if_neg hz]
+      by_cases hr : b.length < (bAt b 1 + 2) * 4
+      · simp only [if_pos hr]
+      · simp only [if_neg hr]
+        have hlen := length_take_of_le b ((bAt b 1 + 2) * 4) (by omega)
+        rw [EpModel.Lemmas.CodecNet.Auth.toHeader_eq _ (by simp only [hlen]; omega) (by simp only [hlen]; omega)
+          (by simp only [hlen]; omega)]
+        simp only [hlen, bAt_take b _ 0 (show 0 < (bAt b 1 + 2) * 4 by omega),
+          be32_take b _ 4 (show 4 + 3 < (bAt b 1 + 2) * 4 by omega),
+          be32_take b _ 8 (show 8 + 3 < (bAt b 1 + 2) * 4 by omega)]
+
+theorem auth_eval (b : Bytes) :
+    evalOn Reads.auth b =
+      if b.length < 12 then (.error (.io .unexpectedEof), b.length)
+      else if bAt b 1 < 1 then (.error (.other "err(zeropayloadlen)"), 12)
+      else if b.length < authLen b then (.error (.io .unexpectedEof), b.length)
+      else (.ok (b.take (authLen b)), authLen b) := by
+  unfold authLen
+  by_cases hl : b.length < 12
+  · rw [if_pos hl]; simp only [Reads.auth, evalOn]; rw [if_neg (by omega)]
+  · rw [if_neg hl]; simp only [Reads.auth, evalOn]; rw [if_pos (by omega)]
+    simp (disch := omega) only [bAt_take]
+    by_cases hz : bAt b 1 < 1
+    · simp only [if_pos hz, evalOn]
+    · simp only [if_neg hz, evalOn, List.length_drop]
+      by_cases hr : b.length < (bAt b 1 + 2) * 4
+      · rw [if_pos hr, if_neg (by omega)]; simp only [Prod.mk.injEq, true_and]; omega
+      · rw [if_neg hr, if_pos (by omega)]
+        simp only [← List.take_add, Prod.mk.injEq]
+        exact ⟨by congr 2; omega, by omega⟩
+
+theorem authLen_take (b : Bytes) (n : Nat) (hn : 2 ≤ n) : authLen (b.take n) = authLen b := by
+  unfold authLen; rw [bAt_take b n 1 (by omega)]
+
+theorem auth_table (pre b : Bytes) :
+    match IpAuthHeader.fromSlice b with
+    | .ok (h, rest) => OkRow Reads.auth IpAuthHeader.fromSlice pre b h rest
+    | .error .zeroPayloadLen =>
+      12 ≤ b.length ∧ bAt b 1 = 0 ∧ ReadsContent Reads.auth pre b 12 "err(zeropayloadlen)"
+    | .error (.len le) =>
+      ((b.length < 12 ∧ le = sliceLenErr 12 b.length .ipAuthHeader) ∨
+       (12 ≤ b.length ∧ b.length < authLen b ∧ le = sliceLenErr (authLen b) b.length .ipAuthHeader)) ∧
+      ReadsEof Reads.auth pre b
+    | .error .panicUnwrap => False := by
+  have he := auth_eval b
+  rw [auth_dec b]
+  by_cases hl : b.length < 12
+  · rw [if_pos hl] at he ⊢; exact ⟨.inl ⟨hl, rfl⟩, readsEof_of_eval he⟩
+  · rw [if_neg hl] at he ⊢
+    by_cases hz : bAt b 1 < 1
+    · rw [if_pos hz] at he ⊢; exact ⟨by omega, by omega, readsContent_of_eval he⟩
+    · rw [if_neg hz] at he ⊢
+      by_cases hr : b.length < authLen b
+      · rw [if_pos hr] at he ⊢; exact ⟨.inr ⟨by omega, hr, rfl⟩, readsEof_of_eval he⟩
+      · rw [if_neg hr] at he ⊢
+        have h12 : 12 ≤ authLen b := by unfold authLen; omega
+        refine okRow_of (authLen b) (by omega) he ?_
+        rw [auth_dec, length_take_of_le b _ (by omega), authLen_take b _ (by omega),
+          bAt_take b _ 0 (by omega), bAt_take b _ 1 (by omega), be32_take b _ 4 (by omega),
+          be32_take b _ 8 (by omega), if_neg (by omega), if_neg hz, if_neg (by omega), take_take_self,
+          drop_take_self]
+
+end Net
+
 end EpModel.Lemmas.ReadVsSlice
